@@ -1801,6 +1801,7 @@ def state_rule(repo, rep, rule=None):
                    "reviewed one")
     r = g_state(repo, rep, rule, mods, "%s modules" % prop)
     argswap_rule(repo, rep, mods=mods)
+    noneflow_rule(repo, rep, mods=mods)
     return r
 
 
@@ -2146,3 +2147,96 @@ def group_width(pattern, flags, gid):
         import re._parser as sp
         s = sp.SubPattern(sp.State(), list(body))
         return s.getwidth()
+
+
+# ---------------------------------------------------------------------------
+# G-NONEFLOW: the two None idioms keep their orientation
+
+
+def noneflow_sites(repo, mods=None):
+    """Conditional expressions and guarded calls that test a value against
+    None:
+    * default idiom  ``E if E is not None else D`` (D does not mention E):
+      E is the result on the not-None side -- the inverted form yields None
+      where a value was asked for;
+    * pass-through idiom ``E if E is None else f(E)`` and
+      ``if E is not None: f(E)``: f is applied on the not-None side only.
+    -> (instances, [(Func, node, text)])"""
+    n = 0
+    bad = []
+    for q, f in sorted(repo.funcs.items()):
+        if mods is not None and f.module.name not in mods:
+            continue
+        for x in ast.walk(f.node):
+            if isinstance(x, ast.IfExp) and isinstance(x.test, ast.Compare) \
+                    and len(x.test.ops) == 1 and isinstance(
+                        x.test.ops[0], (ast.Is, ast.IsNot)) and isinstance(
+                            x.test.comparators[0], ast.Constant) and \
+                    x.test.comparators[0].value is None:
+                e = src(x.test.left)
+                is_none_side = x.body if isinstance(x.test.ops[0], ast.Is) \
+                    else x.orelse
+                not_none_side = x.orelse if isinstance(
+                    x.test.ops[0], ast.Is) else x.body
+                sides = {"none": src(is_none_side),
+                         "value": src(not_none_side)}
+                if sides["value"] == e or sides["none"] == e:
+                    other = sides["none"] if sides["value"] == e \
+                        else sides["value"]
+                    mentions = any(src(y) == e for y in ast.walk(
+                        is_none_side if sides["value"] == e
+                        else not_none_side))
+                    n += 1
+                    if not mentions and sides["none"] == e:
+                        bad.append((f, x, "'%s' is the result when it is "
+                                    "None, the default '%s' when it is not"
+                                    % (e, other[:40])))
+                    if mentions and sides["value"] == e and \
+                            sides["none"] != e:
+                        bad.append((f, x, "'%s' is transformed (%s) when it "
+                                    "is None and passed through when it is "
+                                    "not" % (e, other[:40])))
+            elif isinstance(x, ast.Call) and x.args and isinstance(
+                    x.args[0], ast.Name):
+                e = x.args[0].id
+                for t, v in guards_of(x, f.node):
+                    if not isinstance(t, ast.expr):
+                        continue
+                    pt, flip = _CanonIf._pos(t)
+                    if isinstance(pt, ast.Compare) and len(pt.ops) == 1 and \
+                            isinstance(pt.ops[0], ast.Is) and \
+                            src(pt.left) == e and isinstance(
+                                pt.comparators[0], ast.Constant) and \
+                            pt.comparators[0].value is None:
+                        # (the name may be bound anew inside the branch)
+                        rebound = any(
+                            isinstance(y, ast.Name) and y.id == e and
+                            isinstance(y.ctx, ast.Store) and
+                            y.lineno <= x.lineno and y.lineno >= t.lineno
+                            for y in ast.walk(f.node))
+                        if rebound:
+                            continue
+                        n += 1
+                        holds_none = (v != flip)
+                        if holds_none and src(x.func) not in (
+                                "isinstance", "print", "repr", "str"):
+                            bad.append((f, x, "%s(%s ...) is called only "
+                                        "when '%s' is None" % (
+                                            src(x.func)[:30], e, e)))
+    return n, bad
+
+
+def noneflow_rule(repo, rep, rule=None, mods=None):
+    rule = rule or "R%s.N" % rep.prop[1:]
+    rep.rule(rule, "G-NONEFLOW: 'E if E is not None else default' and "
+                   "'None passes, anything else is processed' keep their "
+                   "orientation")
+    n, bad = noneflow_sites(repo, mods)
+    rep.count("none_idioms", n)
+    for f, x, why in bad:
+        rep.bad(rule, f.qualname, "a value tested against None is used on "
+                "the side where it is not None", construct="noneflow:%s" %
+                src(x)[:40], detail=why, where=where(f, x.lineno))
+    rep.check(not bad, rule, "chameleon.*", "%d None idioms (defaults, "
+              "pass-through of an absent child) oriented correctly" % n,
+              construct="noneflow")
